@@ -15,7 +15,7 @@ THEOREMS = {"C12": ["strip_path_spec", "strip_path_basename", "unquote_quote", "
                     "pure_rename_end_to_end_gen", "pure_rename_end_to_end", "pure_rename_end_to_end_quoted",
                     "pure_rename_same_dir", "pure_rename_never_lost_gen", "pure_rename_never_lost",
                     "pure_rename_fault_at_any_operation", "pure_rename_reverse", "pure_rename_reverse_quoted",
-                    "pure_rename_reverse_never_lost", "pure_rename_then_next", "rename_prog_safe"],
+                    "pure_rename_reverse_never_lost", "pure_rename_then_next", "rename_prog_safe", "rename_prog_dot"],
             "C13": ["consume_printed", "parse_unified_header", "unified_roundtrip", "rejects_loop", "rejects_skipped",
                     "context_roundtrip", "context_roundtrip_list", "normalise_sides", "normalise_idem", "context_roundtrip_normal",
                     "reject_context_file", "wf_hunk_c_unified", "roundtrip_both_forms", "wf_hunk_cb_ok", "tail_ok_cb_ok",
